@@ -14,6 +14,7 @@ mod rng;
 use anstream::ColorChoice;
 use rng::{run_seed, splitmix64, Rng};
 use std::io::Write;
+use std::os::unix::process::CommandExt;
 use std::process::{Command, Stdio};
 
 #[derive(Clone, Debug, PartialEq)]
@@ -489,6 +490,9 @@ fn judge17(scen_seed: u64, r: &RunResult) -> Result<u64, (String, String)> {
     if never_started(r) {
         return Err((INCONCLUSIVE.into(), "the program never started under Miri (build or toolchain failure)".into()));
     }
+    if r.timed_out {
+        return Err(("no-progress".into(), "the program started but did not finish within the execution time limit under this schedule".into()));
+    }
     if r.status != 0 {
         let err_text = String::from_utf8_lossy(&r.err).to_string();
         let class = if err_text.contains("Undefined Behavior") || err_text.contains("Data race") { "miri-undefined-behaviour" } else { "child-failed" };
@@ -581,6 +585,9 @@ fn judge09(_scen_seed: u64, r: &RunResult) -> Result<u64, (String, String)> {
     }
     if never_started(r) {
         return Err((INCONCLUSIVE.into(), "the program never started under Miri (build or toolchain failure)".into()));
+    }
+    if r.timed_out {
+        return Err(("no-progress".into(), "the program started but did not finish within the execution time limit under this schedule".into()));
     }
     let err_text = String::from_utf8_lossy(&r.err).to_string();
     if r.status == 3 || err_text.contains("#DECISION-VIOLATION") {
@@ -679,6 +686,8 @@ struct RunResult {
     /// the program under test printed its first line (false: cargo/rustc/Miri failed before it
     /// ran - a toolchain or build problem, which decides nothing about the property)
     started: bool,
+    /// killed after the execution time limit
+    timed_out: bool,
 }
 
 fn miri_run(miri_seed: u64, rate: &str, scen_seed: u64) -> std::io::Result<RunResult> {
@@ -686,7 +695,7 @@ fn miri_run(miri_seed: u64, rate: &str, scen_seed: u64) -> std::io::Result<RunRe
 }
 
 fn miri_run_role(role: &str, miri_seed: u64, rate: &str, scen_seed: u64) -> std::io::Result<RunResult> {
-    let o = Command::new("cargo")
+    let mut child = Command::new("cargo")
         .args(["+nightly", "miri", "run", "--offline", "-q", "--", role, &scen_seed.to_string()])
         .current_dir(format!("{}/c19/miri-sim", std::env::var("VERIF_ROOT").unwrap_or_else(|_| "/verif".to_string())))
         .env("MIRIFLAGS", format!("-Zmiri-seed={miri_seed} -Zmiri-preemption-rate={rate}"))
@@ -696,9 +705,47 @@ fn miri_run_role(role: &str, miri_seed: u64, rate: &str, scen_seed: u64) -> std:
         .env("CARGO_INCREMENTAL", "0")
         .env_remove("RUSTFLAGS")
         .stdin(Stdio::null())
-        .output()?;
-    let started = o.stderr.windows(BEGIN_MARKER.len()).any(|w| w == BEGIN_MARKER);
-    Ok(RunResult { status: o.status.code().unwrap_or(-1), out: o.stdout, err: strip_tool_noise(o.stderr), started })
+        .stdout(Stdio::piped())
+        .stderr(Stdio::piped())
+        .process_group(0)
+        .spawn()?;
+    // bounded liveness: an execution normally takes a second or two; a program that spins for ever
+    // under some schedule must not hang the check
+    let mut so = child.stdout.take().expect("piped");
+    let mut se = child.stderr.take().expect("piped");
+    let t_out = std::thread::spawn(move || {
+        let mut v = Vec::new();
+        let _ = std::io::Read::read_to_end(&mut so, &mut v);
+        v
+    });
+    let t_err = std::thread::spawn(move || {
+        let mut v = Vec::new();
+        let _ = std::io::Read::read_to_end(&mut se, &mut v);
+        v
+    });
+    let limit = std::env::var("VERIF_MIRI_TIMEOUT_S").ok().and_then(|s| s.parse().ok()).unwrap_or(900u64);
+    let deadline = std::time::Instant::now() + std::time::Duration::from_secs(limit);
+    let mut timed_out = false;
+    let status = loop {
+        match child.try_wait()? {
+            Some(st) => break st.code().unwrap_or(-1),
+            None => {
+                if std::time::Instant::now() >= deadline {
+                    // cargo -> cargo-miri -> miri: kill the whole group we can reach
+                    let _ = Command::new("kill").args(["-KILL", "--", &format!("-{}", child.id())]).status();
+                    let _ = child.kill();
+                    let _ = child.wait();
+                    timed_out = true;
+                    break -2;
+                }
+                std::thread::sleep(std::time::Duration::from_millis(20));
+            }
+        }
+    };
+    let out = t_out.join().unwrap_or_default();
+    let err = t_err.join().unwrap_or_default();
+    let started = err.windows(BEGIN_MARKER.len()).any(|w| w == BEGIN_MARKER);
+    Ok(RunResult { status, out, err: strip_tool_noise(err), started, timed_out })
 }
 
 /// cargo and rustc share the child's stderr.  Drop the lines only they can produce (they start at
@@ -737,7 +784,7 @@ fn strip_tool_noise(err: Vec<u8>) -> Vec<u8> {
 fn native_run(scen_seed: u64) -> std::io::Result<RunResult> {
     let o = Command::new(std::env::current_exe()?).args(["child", &scen_seed.to_string()]).stdin(Stdio::null()).output()?;
     let started = o.stderr.windows(BEGIN_MARKER.len()).any(|w| w == BEGIN_MARKER);
-    Ok(RunResult { status: o.status.code().unwrap_or(-1), out: o.stdout, err: strip_tool_noise(o.stderr), started })
+    Ok(RunResult { status: o.status.code().unwrap_or(-1), out: o.stdout, err: strip_tool_noise(o.stderr), started, timed_out: false })
 }
 
 fn json_str(s: &str) -> String {
@@ -793,6 +840,9 @@ fn judge(sc: &Scenario, r: &RunResult) -> Result<u64, (String, String)> {
     if never_started(r) {
         let tail: String = String::from_utf8_lossy(&r.err).chars().rev().take(600).collect::<String>().chars().rev().collect();
         return Err(("harness".into(), format!("the program never started under Miri (build or toolchain failure): {tail}")));
+    }
+    if r.timed_out {
+        return Err(("no-progress".into(), "the program started but did not finish within the execution time limit under this schedule".into()));
     }
     let err_text = String::from_utf8_lossy(&r.err).to_string();
     if r.status == 3 || err_text.contains("#REGISTER-VIOLATION") {
